@@ -27,7 +27,7 @@ type fdef struct {
 	Col  string
 	Kind int    // index into Kinds
 	Dflt string // literal default ("" none)
-	Auto string // "" | create | update | create_nano
+	Auto string // "" | create | update | create_nano | create_milli | update_milli | create_sec | update_sec
 	Key  bool
 	Emb  bool // member of the embedded struct
 }
@@ -71,6 +71,14 @@ func tagFor(f fdef, keymode string) string {
 		parts = append(parts, "autoUpdateTime")
 	case "create_nano":
 		parts = append(parts, "autoCreateTime:nano")
+	case "create_milli":
+		parts = append(parts, "autoCreateTime:milli")
+	case "update_milli":
+		parts = append(parts, "autoUpdateTime:milli")
+	case "create_sec":
+		parts = append(parts, "autoCreateTime")
+	case "update_sec":
+		parts = append(parts, "autoUpdateTime")
 	}
 	return `gorm:"` + strings.Join(parts, ";") + `"`
 }
@@ -111,7 +119,7 @@ func randModel(r *rand.Rand) *mdef {
 			}
 		}
 		if Kinds[k].Name == "int64" && f.Dflt == "" && r.Intn(5) == 0 {
-			f.Auto = "create_nano"
+			f.Auto = []string{"create_nano", "create_milli", "update_milli", "create_sec", "update_sec"}[r.Intn(5)]
 		}
 		m.fields = append(m.fields, f)
 	}
@@ -224,6 +232,15 @@ func (m *mdef) toks(v reflect.Value) map[string]string {
 	return out
 }
 
+// errToks stands for a record that could not be read: no field carries its value.
+func (m *mdef) errToks(msg string) map[string]string {
+	out := map[string]string{}
+	for _, f := range m.fields {
+		out[f.Name] = msg
+	}
+	return out
+}
+
 func (m *mdef) mapToks(row map[string]interface{}) map[string]string {
 	out := map[string]string{}
 	for _, f := range m.fields {
@@ -249,7 +266,7 @@ func (e *env) rawRow(m *mdef, mk int64) (map[string]string, error) {
 	defer rows.Close()
 	cols, _ := rows.Columns()
 	if !rows.Next() {
-		return map[string]string{}, nil
+		return m.errToks("missing"), nil
 	}
 	vals := make([]interface{}, len(cols))
 	ptrs := make([]interface{}, len(cols))
@@ -332,7 +349,7 @@ func run(e *env, r *rand.Rand, caseNo int) (hx.M, error) {
 			for _, f := range m.fields {
 				v := getField(recs[i].val, f.Name).Interface()
 				switch Kinds[f.Kind].Name {
-				case "upperstr", "point", "json_map", "json_struct", "gob_struct", "unixtime":
+				case "upperstr", "point", "kvser", "json_map", "json_struct", "gob_struct", "unixtime":
 					recs[i].given[f.Name] = "-"
 					continue
 				}
@@ -368,18 +385,18 @@ func run(e *env, r *rand.Rand, caseNo int) (hx.M, error) {
 		if i < found.Elem().Len() {
 			o["found"] = m.toks(found.Elem().Index(i))
 		} else {
-			o["found"] = map[string]string{}
+			o["found"] = m.errToks("missing")
 		}
 		if i < len(maps) {
 			o["map"] = m.mapToks(maps[i])
 		} else {
-			o["map"] = map[string]string{}
+			o["map"] = m.errToks("missing")
 		}
 		// First / Take by marker
 		one := reflect.New(m.typ)
 		ferr := e.db.Table(m.table).Where("mk = ?", rc.mk).First(one.Interface()).Error
 		if ferr != nil {
-			o["first"] = map[string]string{"_err": ferr.Error()}
+			o["first"] = m.errToks("error: " + ferr.Error())
 		} else {
 			o["first"] = m.toks(one.Elem())
 		}
@@ -398,7 +415,8 @@ func run(e *env, r *rand.Rand, caseNo int) (hx.M, error) {
 		fj = append(fj, hx.M{"name": f.Name, "kind": Kinds[f.Kind].Name, "col": f.Col, "dflt": dt, "auto": f.Auto, "key": f.Key})
 	}
 	return hx.M{"ev": "RT", "case": caseNo, "model": fj, "keymode": m.keymode, "mode": mode, "dialect": e.dialect, "preset": preset,
-		"now": timeTok(fixedNow), "nownano": "i:" + strconv.FormatInt(fixedNow.UnixNano(), 10), "recs": outRecs, "nfound": found.Elem().Len(), "err": errs}, nil
+		"now": timeTok(fixedNow), "nownano": "i:" + strconv.FormatInt(fixedNow.UnixNano(), 10),
+		"nowmilli": "i:" + strconv.FormatInt(fixedNow.UnixMilli(), 10), "nowsec": "i:" + strconv.FormatInt(fixedNow.Unix(), 10), "recs": outRecs, "nfound": found.Elem().Len(), "err": errs}, nil
 }
 
 func init() {
